@@ -83,6 +83,13 @@ def materialise(case, root):
         else:
             with open(p, 'w', encoding='utf-8') as f:
                 f.write(content)
+            base = os.path.basename(p)
+            if any(ch in base for ch in '[*?'):
+                # a sibling that the name would match if it were read as a shell pattern (not listed)
+                sib = base.replace('[', '').replace(']', '').replace('*', 'x').replace('?', 'l')
+                with open(os.path.join(os.path.dirname(p), sib), 'w', encoding='utf-8') as f:
+                    f.write('<mos><mosID>x</mosID><messageID>1</messageID><roReadyToAir><roID>sibling</roID>'
+                            '<roAir>READY</roAir></roReadyToAir></mos>')
         args.append(p)
     if case.get('relative'):
         args = [os.path.relpath(a, root) for a in args]
@@ -360,7 +367,7 @@ def listing_case(draw):
         # unusual but legal file names; the same file listed a second time
         for i in range(len(files)):
             if draw(st.integers(0, 2)) == 0:
-                names[str(i)] = draw(st.sampled_from(['with space {}.mos.xml', 'é中 {}.xml', 'a=b{}.mos.xml', '{}', 'UPPER{}.MOS.XML', 'rundown[{}].mos.xml', 'f{}.mos.xm?', 'f{}*.xml',
+                names[str(i)] = draw(st.sampled_from(['with space {}.mos.xml', 'é中 {}.xml', 'a=b{}.mos.xml', '{}', 'UPPER{}.MOS.XML', 'rundown[{}].mos.xml', 'rundown[{}].mos.xml', 'f{}.mos.xm?', 'f{}*.xml',
                                                       'x{}.mos.xml.bak', "it's{}.xml"])).format(i)
         files.insert(draw(st.integers(1, len(files))), ('same-as-first', None))
     relative = False
